@@ -29,7 +29,8 @@ def TS.isParked : TS → Bool
 
 /-- a read acquire that has not been granted -/
 def TS.readerPending : TS → Bool
-  | .lockInv false | .parked false _ | .cancelling false | .cancelled | .finished => true
+  | .lockInv false | .parked false _ | .cancelling false | .cancelled | .finished
+  | .tryInv false | .tryFailed => true
   | _ => false
 
 def TS.isHeld : TS → Bool
@@ -123,6 +124,15 @@ theorem MoveOK.plain (ms : C02St) (cx : List Nat) (t : Nat) (a b : TS)
     rcases ha2 with h2 | h2
     · rw [h2] at h; cases h
     · exact Or.inl h2
+
+/-- the same when the monitor records no blockers at all (Mutex) -/
+theorem MoveOK.plain_nobl (ms : C02St) (cx : List Nat) (t : Nat) (a b : TS)
+    (hb1 : b.lockMode = none) (hb2 : b.cancelSt = false) (ha1 : a.wwait = false)
+    (hnb : ms.blockers = []) : MoveOK ms cx t a b where
+  mode := by intro w h; rw [hb1] at h; cases h
+  cancel := by intro h; rw [hb2] at h; cases h
+  wwait := by intro h; rw [ha1] at h; cases h
+  rp := by intro _; right; intro u hm; rw [hnb] at hm; cases hm
 
 /-- a new thread (whose id no monitor list mentions yet) -/
 theorem ThRel.append {th : List TS} {cx : List Nat} {ms : C02St} (h : ThRel th cx ms) (b : TS)
@@ -503,9 +513,33 @@ theorem c02_sim_step (s : St) (e : Ev) (s' : St) (ms : C02St) (hR : RelC02 s ms)
       · have := hR.mlt p hp; simp; omega
   | invTry t w =>
     simp only [step] at hstep; split at hstep <;> simp at hstep; subst hstep
-    refine ⟨ms, rfl, hi', rel2_append _ _ _ hR.rel2 (by intro x hx; cases hx), Cover.append hR.cover _ rfl,
-      hR.thr.append _ rfl rfl, ?_, hR.cx⟩
-    intro p hp; have := hR.mlt p hp; simp; omega
+    rename_i ht
+    refine ⟨_, rfl, hi', rel2_append _ _ _ hR.rel2 (by intro x hx; cases hx), Cover.append hR.cover _ rfl, ?_, ?_, hR.cx⟩
+    · constructor
+      · intro u x w' hu hm
+        rcases getElem?_snoc_cases _ _ _ _ hu with ⟨_, hu'⟩ | ⟨_, rfl⟩
+        · exact hR.thr.modes u x w' hu' hm
+        · simp [TS.lockMode] at hm
+      · intro u x hu hc
+        rcases getElem?_snoc_cases _ _ _ _ hu with ⟨_, hu'⟩ | ⟨_, rfl⟩
+        · exact hR.thr.cxst u x hu' hc
+        · simp [TS.cancelSt] at hc
+      · intro u hu
+        obtain ⟨x, hx, hw, hp⟩ := hR.thr.ww u hu
+        exact ⟨x, getElem?_snoc_left _ _ _ _ hx, hw, hp⟩
+      · intro r u hm
+        cases w
+        · simp only [Bool.false_eq_true, if_false, List.mem_append, List.mem_map] at hm
+          rcases hm with ⟨u', hu', he⟩ | hm
+          · cases he
+            refine ⟨hu', .tryInv false, ?_, rfl⟩
+            subst ht; simp
+          · obtain ⟨h1, x, hx, hr⟩ := hR.thr.bl r u hm
+            exact ⟨h1, x, getElem?_snoc_left _ _ _ _ hx, hr⟩
+        · simp only [if_true] at hm
+          obtain ⟨h1, x, hx, hr⟩ := hR.thr.bl r u hm
+          exact ⟨h1, x, getElem?_snoc_left _ _ _ _ hx, hr⟩
+    · intro p hp; have := hR.mlt p hp; simp; omega
   | lockCS t =>
     simp only [step] at hstep; split at hstep <;> simp at hstep; subst hstep
     rename_i w h
@@ -577,20 +611,52 @@ theorem c02_sim_step (s : St) (e : Ev) (s' : St) (ms : C02St) (hR : RelC02 s ms)
   | retTry t r =>
     simp only [step] at hstep; split at hstep <;> simp at hstep
     · obtain ⟨rfl, rfl⟩ := hstep; rename_i w h
-      refine ⟨{ ms with holders := (t, w) :: ms.holders }, rfl, hi', ?_, ?_, ?_, ?_, hR.cx⟩
+      have hany : (!w && ms.blockers.any (fun p => p.1 == t)) = false := by
+        cases w
+        · simp only [Bool.not_false, Bool.true_and]
+          rw [List.any_eq_false]
+          intro p hp he
+          have hpt : p = (t, p.2) := by
+            have : p.1 = t := by simpa using he
+            rw [← this]
+          rw [hpt] at hp
+          obtain ⟨_, x, hx, hr⟩ := hR.thr.bl t p.2 hp
+          rw [h] at hx; cases hx
+          simp [TS.readerPending] at hr
+        · rfl
+      refine ⟨{ ms with holders := (t, w) :: ms.holders }, ?_, hi', ?_, ?_, ?_, ?_, hR.cx⟩
+      · simp only [monC02, hany]; rfl
       · exact rel2_grant hR.rel2 w h (by intro w h; cases h) rfl
       · exact Cover.grant hR.cover w h rfl
       · exact (hR.thr.move (.held w) h (MoveOK.plain _ _ _ _ _ rfl rfl rfl (Or.inl rfl))).holders _
       · intro p hp; simp; exact hR.mlt p hp
     · subst hstep; rename_i h
       exact ⟨ms, rfl, hR.plain_move .finished _ rfl rfl hi' h (by intro w h; cases h) rfl (by intro x hx; cases hx) rfl
-        (by simp [TS.afterHeld]) (MoveOK.plain _ _ _ _ _ rfl rfl rfl (Or.inl rfl))⟩
+        (by simp [TS.afterHeld]) (MoveOK.plain _ _ _ _ _ rfl rfl rfl (Or.inr rfl))⟩
   | tryCS t =>
     simp only [step] at hstep; split at hstep <;> try simp at hstep
     rename_i w h
-    split at hstep <;> split at hstep <;> simp at hstep <;> subst hstep <;>
-      exact hR.plain_move _ _ rfl rfl hi' h (by intro w h; cases h) rfl (by intro x hx; cases hx) rfl
-        (by simp [TS.afterHeld]) (MoveOK.plain _ _ _ _ _ rfl rfl rfl (Or.inl rfl))
+    cases w with
+    | true =>
+      simp only [if_true] at hstep
+      split at hstep <;> simp at hstep <;> subst hstep <;>
+        exact hR.plain_move _ _ rfl rfl hi' h (by intro w h; cases h) rfl (by intro x hx; cases hx) rfl
+          (by simp [TS.afterHeld]) (MoveOK.plain _ _ _ _ _ rfl rfl rfl (Or.inl rfl))
+    | false =>
+      simp only [Bool.false_eq_true, if_false] at hstep
+      split at hstep <;> simp at hstep <;> subst hstep
+      · -- a granted try-read has no blockers: no writer holds or waits
+        rename_i hg
+        have nb : ∀ u, (t, u) ∉ ms.blockers := by
+          intro u hm
+          rcases blocked_reader s ms hi hR.thr t u hm with h3 | h3
+          · simp [h3] at hg
+          · exact h3 hg.2
+        exact hR.plain_move _ _ rfl rfl hi' h (by intro w h; cases h) rfl (by intro x hx; cases hx) rfl
+          (by simp [TS.afterHeld])
+          ⟨by intro w' hm; simp [TS.lockMode] at hm, by simp [TS.cancelSt], by simp [TS.wwait], fun _ => Or.inr nb⟩
+      · exact hR.plain_move _ _ rfl rfl hi' h (by intro w h; cases h) rfl (by intro x hx; cases hx) rfl
+          (by simp [TS.afterHeld]) (MoveOK.plain _ _ _ _ _ rfl rfl rfl (Or.inr rfl))
   | envCancel t =>
     simp only [step] at hstep; split at hstep <;> simp at hstep; subst hstep
     refine ⟨{ forgetCall ms t with cancelled := t :: ms.cancelled }, ?_, hi', hR.rel2, hR.cover, ?_, hR.mlt, ?_⟩
@@ -712,8 +778,8 @@ theorem c02_sim_step (s : St) (e : Ev) (s' : St) (ms : C02St) (hR : RelC02 s ms)
 callers and every interleaving of critical sections, wake-ups, cancellations and releases — is
 accepted by `monC02`: at every quiescence point no pending caller is grantable under its own rule
 and no cancelled caller is still pending; `Lock` returns `Canceled` only if its context was
-cancelled; a reader invoked while a writer was known to be waiting is not granted before that
-writer returned or was cancelled. -/
+cancelled; a read acquire (`Lock(false)` or `TryLock(false)`) invoked while a writer was known to be
+waiting is not granted before that writer returned or was cancelled. -/
 theorem C02_obs_rw (es : List Ev) (s : St) (h : model.run model.init es = some s) :
     monC02.accepts (es.filterMap model.obs) = true :=
   monitor_accepts_of_simulation model monC02 RelC02 relC02_init
